@@ -25,6 +25,12 @@ def new (w : List Int) : List Int := normalized w
 /-- `FreeWord::empty` -/
 def empty : List Int := new []
 
+/-- `impl Index<usize> for FreeWord` : `&self.w[index]`; a slice index out of range panics -/
+def index (a : List Int) (k : Nat) : Outcome Int :=
+  match a[k]? with
+  | some x => .ok x
+  | none => .panic
+
 /-- the private helper `fn mul(lhs, rhs) -> Vec<isize>` (raw concatenation) -/
 def rawMul (a b : List Int) : List Int := a ++ b
 
